@@ -125,9 +125,22 @@ impl World {
         // what is wrong right after a panic inside retain / mutate / clone is
         // also that operation's business
         let own: Option<&'static str> = match name { "retain" => Some("C15"), "mutate" => Some("C11"), "clone" => Some("C14"), _ => None };
-        if let Some(tag) = own {
-            for f in self.fails.iter_mut().skip(nfails) {
+        let readonly = matches!(name, "clone" | "peek" | "peek_entry" | "contains" | "peek_lru" | "peek_mru");
+        for f in self.fails.iter_mut().skip(nfails) {
+            if let Some(tag) = own {
                 if !f.has(tag) { f.tags.push(tag); }
+            }
+            // a shared-reference operation must leave the cache as it was, panic or not
+            if readonly && !f.has("C19") { f.tags.push("C19"); }
+        }
+        if readonly {
+            if let Some(o) = &obs {
+                let fp = self.side().cache().verif_fingerprint();
+                if *o != pre.obs || fp != pre.fp {
+                    self.fail(vec!["C19", "C16"], format!("panic-changed:{}", name),
+                        format!("a panic inside {} (a shared-reference operation) changed the cache: before {} after {}",
+                            name, summary(&pre.obs), summary(o)));
+                }
             }
         }
         let obs = match obs {
